@@ -1122,7 +1122,11 @@ func RunSliceExpr(ctx *Task, expr *ast.SliceExpr) (any, ast.DType, *errchain.PlE
 			if endInt > length {
 				endInt = length
 			}
-			result := make([]any, 0, (endInt-startInt+stepInt-1)/stepInt)
+			n := 0
+			if startInt < endInt {
+				n = (endInt-startInt-1)/stepInt + 1
+			}
+			result := make([]any, 0, n)
 			for i := startInt; i < endInt; i += stepInt {
 				result = append(result, list[i])
 			}
@@ -1134,7 +1138,11 @@ func RunSliceExpr(ctx *Task, expr *ast.SliceExpr) (any, ast.DType, *errchain.PlE
 			if endInt < 0 {
 				endInt = -1
 			}
-			result := make([]any, 0, (startInt-endInt-stepInt-1)/(-stepInt))
+			n := 0
+			if startInt > endInt {
+				n = (startInt-endInt-1)/(-stepInt) + 1
+			}
+			result := make([]any, 0, n)
 			for i := startInt; i > endInt; i += stepInt {
 				result = append(result, list[i])
 			}
